@@ -293,18 +293,33 @@ func (c *fctx) rangeStmt(x *ast.RangeStmt, rest []ast.Stmt, k *cont, n int) (str
 	if x.Tok != token.DEFINE || x.Value == nil {
 		return "", fmt.Errorf("unsupported form of range at %s", fset.Position(x.Pos()))
 	}
-	if key, ok := x.Key.(*ast.Ident); !ok || key.Name != "_" {
+	e, err := c.expr(x.X)
+	if err != nil {
+		return "", err
+	}
+	isMap := e.t.k == kMap
+	var kid *ast.Ident
+	if key, ok := x.Key.(*ast.Ident); !ok {
+		return "", fmt.Errorf("unsupported range key at %s", fset.Position(x.Pos()))
+	} else if isMap {
+		kid = key
+	} else if key.Name != "_" {
 		return "", fmt.Errorf("range with an index variable not supported at %s", fset.Position(x.Pos()))
 	}
 	vid, ok := x.Value.(*ast.Ident)
 	if !ok {
 		return "", fmt.Errorf("unsupported range value at %s", fset.Position(x.Pos()))
 	}
-	e, err := c.expr(x.X)
-	if err != nil {
-		return "", err
-	}
-	if e.t.k != kList || e.t.elem == nil {
+	elemLean, listTerm := "", e.s
+	switch {
+	case isMap:
+		// iteration order is whatever order the association list has (any order: the theorems
+		// quantify over the list)
+		elemLean = e.t.key.lean + " × " + e.t.elem.lean
+		listTerm = "Go.mapRange " + paren(e.s)
+	case e.t.k == kList && e.t.elem != nil:
+		elemLean = e.t.elem.lean
+	default:
 		return "", fmt.Errorf("range over %s not supported at %s", e.t.lean, fset.Position(x.Pos()))
 	}
 	var b strings.Builder
@@ -386,7 +401,7 @@ func (c *fctx) rangeStmt(x *ast.RangeStmt, rest []ast.Stmt, k *cont, n int) (str
 		exit = "pure (none, " + c.tupleOf(mods) + ")"
 	}
 	var d strings.Builder
-	fmt.Fprintf(&d, "def %s %s%s : List %s", lname, sigma, strings.Join(binders, " "), paren(e.t.elem.lean))
+	fmt.Fprintf(&d, "def %s %s%s : List %s", lname, sigma, strings.Join(binders, " "), paren(elemLean))
 	for _, t := range modTypes {
 		fmt.Fprintf(&d, " → %s", paren(t))
 	}
@@ -397,6 +412,13 @@ func (c *fctx) rangeStmt(x *ast.RangeStmt, rest []ast.Stmt, k *cont, n int) (str
 	vname := "_"
 	if vobj != nil && vid.Name != "_" {
 		vname = c.declare(vobj)
+	}
+	if isMap {
+		kname := "_"
+		if kobj := c.info.Defs[kid]; kobj != nil && kid.Name != "_" {
+			kname = c.declare(kobj)
+		}
+		vname = "(" + kname + ", " + vname + ")"
 	}
 	fmt.Fprintf(&d, "  | %s :: %s%s => do\n", vname, restName, prefixEach(", ", modNames))
 	c.loops = append(c.loops, loopFrame{name: lname, mods: mods, hasRet: hasRet, recArg: restName})
@@ -412,7 +434,7 @@ func (c *fctx) rangeStmt(x *ast.RangeStmt, rest []ast.Stmt, k *cont, n int) (str
 	c.aux = append(c.aux, d.String())
 
 	args := append([]string{}, roNames...)
-	args = append(args, paren(e.s))
+	args = append(args, paren(listTerm))
 	args = append(args, modNames...)
 	call := lname + " " + strings.Join(args, " ")
 	pat := c.tupleOf(mods)
@@ -501,7 +523,7 @@ func (g *golite) translate(cfg *fnCfg) (string, error) {
 	if cfg.extra != "" {
 		binders = append(binders, cfg.extra)
 	}
-	var recvBinder string
+	var recvBinder, recvAsPtr string
 	if sig.Recv() != nil {
 		o := sig.Recv()
 		t, err := g.ltypeOf(o.Type())
@@ -509,7 +531,10 @@ func (g *golite) translate(cfg *fnCfg) (string, error) {
 			return "", err
 		}
 		name := c.declare(o)
-		if isPtr(o.Type()) {
+		if isPtr(o.Type()) && cfg.recvParam != "" {
+			c.ptrs[o] = true
+			recvAsPtr = fmt.Sprintf("(%s : %s)", name, t.lean)
+		} else if isPtr(o.Type()) {
 			c.recv = o
 			recvBinder = fmt.Sprintf("(%s : %s)", name, t.lean)
 		} else {
@@ -568,7 +593,10 @@ func (g *golite) translate(cfg *fnCfg) (string, error) {
 		if t.k == kFunc {
 			return "", fmt.Errorf("%s: function parameter %s has no callback configuration", cfg.goName, o.Name())
 		}
-		if isPtr(o.Type()) || cfg.inout[o.Name()] {
+		if cfg.recvParam != "" && o.Name() == cfg.recvParam {
+			c.recv = o
+			recvBinder = fmt.Sprintf("(%s : %s)", name, t.lean)
+		} else if isPtr(o.Type()) || cfg.inout[o.Name()] {
 			c.ptrs[o] = true
 			ptrBinders = append(ptrBinders, fmt.Sprintf("(%s : %s)", name, t.lean))
 		} else {
@@ -577,6 +605,9 @@ func (g *golite) translate(cfg *fnCfg) (string, error) {
 	}
 	if recvBinder != "" {
 		binders = append(binders, recvBinder)
+	}
+	if recvAsPtr != "" {
+		binders = append(binders, recvAsPtr)
 	}
 	binders = append(binders, ptrBinders...)
 	if c.state != nil {
